@@ -115,6 +115,24 @@ def impl_coverage(comp: str) -> dict | None:
     return core.cached("cov-" + comp, "thorough", compute)
 
 
+def kernel_samples(comp: str, tier: str) -> dict | None:
+    """simulator only: the Lean kernel itself (by decide) confirms model = implementation on small generated inputs"""
+    if comp != "sim":
+        return None
+
+    def compute():
+        import subprocess
+
+        n = 24 if tier == "quick" else 400
+        r = subprocess.run([sys.executable, "-m", "checks.kernel_samples", str(n)], cwd=VERIF, capture_output=True, text=True)
+        try:
+            return json.loads(r.stdout.strip().splitlines()[-1])
+        except Exception:  # noqa: BLE001
+            raise core.InfraError("kernel samples could not be run: " + (r.stdout + r.stderr)[-800:])
+
+    return core.cached("kernel-" + comp, tier, compute)
+
+
 def write_replay(prop: str, payload: dict) -> str:
     os.makedirs(os.path.join(VERIF, "replays"), exist_ok=True)
     blob = json.dumps(payload, sort_keys=True, indent=1)
@@ -186,6 +204,7 @@ def main() -> int:
     results = comp_res["results"]
 
     known = load_json(os.path.join(VERIF, "known_findings.json"), {"open": [], "fixed": []})
+    ksamples = kernel_samples(comp, tier)
 
     evaluated = 0
     digests_nt = set()
@@ -273,6 +292,15 @@ def main() -> int:
             else:
                 known_lines.append(f"KNOWN-FINDING: property={prop} {is_known(r).get('what', '')}")
 
+    # (3) kernel samples refuted: the definitions the theorems are about disagree with the implementation
+    if ksamples is not None and not ksamples.get("confirmed") and not violations:
+        path = write_replay(prop, {"property": prop, "kind": "correspondence",
+                                   "broken": "K.kernel.sim (Lean kernel: `outcomeCanon (simulate p prog) = implementation's outcome` refuted by `decide`)",
+                                   "theorems_relying_on_it": [t["name"] for t in aud["theorems"]], "seed": seed,
+                                   "detail": ksamples,
+                                   "note": "no input was found on which the property's own predicate fails; the property is no longer shown to hold"})
+        violations.append((path, " no-failing-input-found"))
+
     # evidence
     n_thm = len(aud["theorems"])
     level = "proof" if n_thm > 0 and aud["ok"] else "other"
@@ -301,6 +329,7 @@ def main() -> int:
                         "property's Bool spec (Lean) on the implementation's output; no theorem registered yet"),
         "exhaustive": False,
         "impl_branch_coverage": impl_coverage(comp) if tier == "thorough" else None,
+        "kernel_samples": ksamples,
         "lake_build_s": build_s,
     }
     ev = {"property_id": prop, "tier": tier, "seed": seed, "level": level, "coverage": coverage,
